@@ -10,6 +10,7 @@ import (
 	"strings"
 
 	"verif/internal/gen"
+	"verif/internal/schema"
 	"verif/internal/val"
 )
 
@@ -51,6 +52,8 @@ func scramble(v reflect.Value, r *gen.Rng) {
 		v.SetFloat(v.Float()*2 + 1)
 	}
 }
+
+func g0(e *Env, t *schema.Type) *gen.Rng { return gen.NewRng(e.Seed, "C16", "scramble", t.QName) }
 
 func c16Workload(e *Env) {
 	r := e.R
@@ -148,6 +151,37 @@ func c16Workload(e *Env) {
 				r.Sample(map[string]any{"type": t.QName, "image": val.Hex(w0, 48), "steps": []string{"complement source bytes", "reset+rewrite buffer", "decode another message from same buffer", "scramble message after encode"}, "verdict": "message and bytes unchanged"})
 			}
 		}
+		// where the encoder fills in an absent body/extension: mutate the object it attached, then let it fill
+		// another message with the same key - the second one must still get a blank body of its own
+		for _, f := range t.Fields {
+			if f.Kind != "union" || !f.Fill {
+				continue
+			}
+			tb := e.S.Table(t.Pkg, f.Table)
+			for _, en := range tb.Entries {
+				mk := func(tag string) any {
+					v := e.Gen(&gen.Opts{ForceKey: map[string]any{tb.QName: en.Key}}, t.QName, "fill", fmt.Sprint(en.Key), tag).Value(t)
+					fv := reflect.ValueOf(v).Elem().FieldByName(f.Name)
+					fv.Set(reflect.Zero(fv.Type()))
+					return v
+				}
+				m1, m2 := mk("first"), mk("second")
+				want, rerr := e.C.Encode(t, val.Clone(m2))
+				if err, p := LibEncode(m1, new(bytes.Buffer)); err != nil || p != nil || rerr != nil {
+					continue
+				}
+				scramble(reflect.ValueOf(m1).Elem().FieldByName(f.Name), g0(e, t))
+				got, err, p := EncodeFresh(m2)
+				evals++
+				if err != nil || p != nil || !bytes.Equal(got, want) {
+					d := firstDiffPlain(got, want)
+					d["type"], d["key"], d["step"] = t.QName, en.Key, "Encode(m1 with absent "+f.Name+") -> mutate the object the encoder attached to m1 -> Encode(m2 with absent "+f.Name+", same key)"
+					r.Violate("C16/encoder-filled-bodies-share-one-object/"+t.QName, "C16/encoder-filled-bodies-share-one-object/"+t.QName, d)
+					break
+				}
+				lf["encoder-filled-bodies-independent"]++
+			}
+		}
 		r.Evals(evals)
 		r.DistinctMany(local)
 		acc.merge(lf)
@@ -156,7 +190,77 @@ func c16Workload(e *Env) {
 	c16Pool(e)
 	if !(len(e.Args) > 0 && e.Args[0] == "race-child") && e.Only == "" {
 		c16HugeSource(e)
+		c16AfterManyDistinct(e)
 	}
+}
+
+// c16AfterManyDistinct decodes 300 000 messages with pairwise distinct texts through each decoder that reads
+// prefixed texts (bounded intern tables and caches behave differently once they are full) and then repeats the
+// decode-side aliasing test.
+func c16AfterManyDistinct(e *Env) {
+	r := e.R
+	n := 0
+	var ts []*schema.Type
+	for _, t := range e.S.Order {
+		for _, f := range t.Fields {
+			if f.Kind == "pstr" && f.Prefix == "u32" {
+				ts = append(ts, t)
+				break
+			}
+		}
+	}
+	e.Par(len(ts), func(i int) {
+		t := ts[i]
+		g := e.Gen(&gen.Opts{StrLens: []int{3}}, t.QName, "many-distinct")
+		base := g.Value(t)
+		bv := reflect.ValueOf(base).Elem()
+		var texts []reflect.Value
+		for _, f := range t.Fields {
+			if f.Kind == "pstr" {
+				texts = append(texts, bv.FieldByName(f.Name))
+			}
+		}
+		buf := new(bytes.Buffer)
+		d := e.C.New[t.QName]()
+		for k := 0; k < 300000; k++ {
+			for j, tv := range texts {
+				tv.SetString(fmt.Sprintf("v%d-%d", j, k))
+			}
+			buf.Reset()
+			if err, p := LibEncode(base, buf); err != nil || p != nil {
+				return
+			}
+			if err, p := LibDecode(d, buf); err != nil || p != nil {
+				return
+			}
+		}
+		// now the aliasing test on a few more distinct messages
+		for k := 0; k < 20; k++ {
+			for j, tv := range texts {
+				tv.SetString(fmt.Sprintf("late-%d-%d", j, k))
+			}
+			w, err, p := EncodeFresh(val.Clone(base))
+			if err != nil || p != nil {
+				return
+			}
+			src := append([]byte(nil), w...)
+			m := e.C.New[t.QName]()
+			if err, p := LibDecode(m, bytes.NewBuffer(src)); err != nil || p != nil {
+				return
+			}
+			snap := val.Clone(m)
+			for x := range src {
+				src[x] = ^src[x]
+			}
+			r.Evals(1)
+			if dd := val.Equal(snap, m); dd != "" {
+				r.Violate("C16/decoded-message-aliases-source-bytes/"+t.QName+"/after-300000-distinct-messages", "C16/decoded-message-aliases-source-bytes/"+t.QName, map[string]any{"type": t.QName, "step": "decode 300000 messages with distinct texts, then decode one more and complement its source", "first_difference": dd})
+				return
+			}
+		}
+		r.Count("types-checked-after-300000-distinct-messages", 1)
+	})
+	_ = n
 }
 
 // c16HugeSource decodes ordinary small frames from a source buffer that still holds ~96 MiB of further frames
